@@ -179,7 +179,7 @@ def ob_validate_then_use(run, oid):
 def ob_sanitise_tx(run, oid):
     prog = run.program("lib")
     o = run.ob(oid, "client transactions are size-checked before they are serialised into a slice",
-               "an oversized transaction underflows the remaining-space computation (panic, overflow checks are on in release) or yields a slice too large to shred", floor=2)
+               "an oversized transaction underflows the remaining-space computation (panic, overflow checks are on in release) or yields a slice too large to shred", floor=4)
     mx = prog.const_int(A + "MAX_TRANSACTION_SIZE")
     sites = []
     for b in prog.family(A + "consensus::block_producer::produce_slice_payload"):
@@ -205,6 +205,40 @@ def ob_sanitise_tx(run, oid):
         # the per-transaction space reservation uses the same constant
         sp = [bl for bl in b.blocks if bl["term"]["k"] == "switch" and K.mentions(b.operand_term(bl["term"]["d"]), lambda t: t[0] == "const" and len(t) > 3 and t[3].endswith("MAX_TRANSACTION_SIZE"))]
         o.check(len(sp) >= 1, "produce_slice_payload|space-reservation", "the loop stops when fewer than MAX_TRANSACTION_SIZE + 8 bytes are left", b.span)
+        # the amount reserved per iteration covers the largest transaction the size check lets through, as encoded
+        from . import C19
+        sc = C19.SizeCalc(prog, C19.wire_consts(prog), None)
+        tx_max = sc.size(A + "Transaction")
+        par_max = sc.size("core::option::Option<(" + A + "types::slot::Slot, " + A + "crypto::hash::Hash)>") if hasattr(sc, "size") else None
+        res = []
+        for bl in b.blocks:
+            if bl["term"]["k"] != "switch" or bl["id"] not in b.reach():
+                continue
+            for v, atoms in G.switch_atoms(b, bl["id"], prog).items():
+                for a in atoms:
+                    if a[0] != "lt":
+                        continue
+                    free, thr = K.peel(a[1][0]), a[1][1]
+                    if isinstance(free, tuple) and free[0] == "field" and free[2] == "0":
+                        free = free[1]
+                    if not (isinstance(free, tuple) and free[0] == "bin" and free[1].startswith("Sub") and K.mentions_call(free[3], "::len")):
+                        continue
+                    t = K.const_eval(thr)
+                    if t is None:
+                        continue
+                    # which edge continues the loop (can reach the serialisation again)?
+                    tgt = [e[1] for e in b.edges() if e[0] == bl["id"] and e[2] == ("sw", v)]
+                    again = bool(tgt) and c.bb in b.reachable(tgt[0])
+                    res.append((bl["id"], a[2], t, again, bl["term"].get("sp", "")))
+        cont = [r for r in res if r[3]]
+        stop = [r for r in res if not r[3]]
+        ok = bool(cont) and all((r[1] is False and r[2] >= tx_max) for r in cont) and all(r[1] is True for r in stop)
+        o.check(ok, "produce_slice_payload|space-reservation|covers-encoded-tx", "another transaction is accepted only while free space >= %d = encoded size of the largest admitted transaction (length prefix + MAX_TRANSACTION_SIZE)" % tx_max,
+                cont[0][4] if cont else b.span, {"guards": [(r[1], r[2], "continues" if r[3] else "stops") for r in res], "max_encoded_transaction": tx_max})
+        md = prog.const_int(A + "shredder::MAX_DATA_PER_SLICE")
+        if md is not None and par_max is not None:
+            o.check(md - par_max - 8 - 8 >= tx_max, "produce_slice_payload|space-reservation|first-iteration",
+                    "an empty slice has room for one maximal transaction: MAX_DATA_PER_SLICE - encoded parent (%d) - data length (8) - count (8) >= %d" % (par_max, tx_max), b.span)
 
 
 def ob_lock_order(run, oid):
